@@ -149,7 +149,9 @@ def R3_search_siblings(run):
             a = cs[0][2]
             sh_ = strip(a[3])
             ok = is_param(a[1], "tick_index") and is_param(a[2], "tick_spacing") and sh_[0] == "un" and sh_[1] == "Not" and is_param(sh_[2], "a_to_b")
-        rng = any("InvalidTickArraySequence" in at.false_codes and at.false_fail and mentions(at.term, lambda s: s[0] == "call" and s[1].endswith("in_search_range")) for at in A.atoms(fn))
+        # ... on every successful path (an early `Ok(None)` ahead of the range test lets an array sit anywhere in the sequence)
+        rng = any("InvalidTickArraySequence" in at.false_codes and at.false_fail and mentions(at.term, lambda s: s[0] == "call" and s[1].endswith("in_search_range"))
+                  and not cfg.success_reach(fn, 0, cut_blocks=[at.block]) for at in A.atoms(fn))
         run.check("R3", "shifted-range@" + name, ok and rng, "%s get_next_init_tick_index does not fail with InvalidTickArraySequence outside in_search_range(tick, spacing, !a_to_b)" % name, loc=fn.loc(),
                   detail="!in_search_range(tick_index, spacing, !a_to_b) => InvalidTickArraySequence")
     z = facts.need_fn(ZERO + "::get_next_init_tick_index")
